@@ -946,14 +946,15 @@ def install_datetime(w):
     def tzc_tzname(ex, st, args, kw, line):
         off = args[0].off
         if not is_sym(off):
-            yield st, "UTC" if off == 0 else ex.world.sym_format(off, None)
+            yield st, "UTC" if off == 0 else ex.world.sym_concat(["UTC", ex.world.sym_format(off, None)])
             return
         s0 = st.fork(sym.eq(off, 0), f"L{line}utc")
         if ex.feasible(s0):
             yield s0, "UTC"
         st.assume(sym.ne(off, 0))
         if ex.feasible(st):
-            yield st, ex.world.sym_format(off, None)
+            # 'UTC+hh:mm': the literal prefix followed by a non-empty rendering of the offset
+            yield st, ex.world.sym_concat(["UTC", ex.world.sym_format(off, None)])
 
     def obj_eq(ex, st, args, kw, line):
         a, b = args
